@@ -127,11 +127,20 @@ Proof.
     assert (E : owner_snap s (aj s) = HT TC). { unfold owner_snap. bool_lia. }
     rewrite E in O.
     eexists. split.
-    + repeat run1. rewrite (acc_ok1_only _ _ _ O). rewrite run_cons, mon1_rel, rel1_cons_eq, (only_hmem _ _ O).
-      reflexivity.
+    + repeat run1. rewrite (acc_ok1_only _ _ _ O). cbv beta iota. repeat run1.
+      rewrite (acc_ok1_only _ _ _ O). cbv beta iota.
+      rewrite run_cons, mon1_rel, rel1_cons_eq, (only_hmem _ _ O). reflexivity.
     + eexists. split; [reflexivity|].
       replace (owner_snap _ (aj s)) with (HM (MSnap (aj s)) : H); [now apply only_give|].
       destruct W as [WA WB]. pose proof (WA (aj s)). pose proof (WB (aj s)). unfold owner_snap; proj. bool_lia.
+  - (* a block is copied into the archive that is being filled: the core loop writes the buffers of request aj *)
+    destruct (Nat.eq_dec j (aj s)) as [->|NE]; [|snap_skip j s hs HB O W].
+    assert (E : owner_snap s (aj s) = HT TC). { unfold owner_snap. bool_lia. }
+    rewrite E in O.
+    exists (Some hs). split.
+    + repeat run1. rewrite (acc_ok1_only _ _ _ O). reflexivity.
+    + exists hs. split; [reflexivity|].
+      unfold owner_snap; proj. rewrite Nat.leb_refl. exact O.
   - (* archive writer j0 starts: no concern *)
     destruct (Nat.eq_dec j j0) as [->|NE].
     + exists (Some hs). split.
